@@ -501,3 +501,39 @@ class SPSetName(SetNameBase):
 class CPSetName(SetNameBase):
     recv = CPC
     named = ("_fget", "_fset", "_fdel", "overridable", "warn_on_override", "cache", "allow_attribute_error", "attrs", "_cache", "__doc__")
+
+
+@register
+class SPInvalidatedBy(Contract):
+    """__spec_class_invalidated_by__: what bootstrap reads to build the invalidation map (C11) - the declared
+    invalidated_by option: a single name becomes a one-element list of that name, a collection is handed over
+    as it is, nothing declared (or an empty declaration) is an empty collection; the descriptor is not written"""
+    qual = SPC + ".__spec_class_invalidated_by__"
+    recv = SPC
+
+    def setup(self, c):
+        st, s = c.pre, c.self
+        st.assume(is_ref(s), a_of(s) >= 1000, a_of(s) < st.alloc)
+        d = fld(st, s, "attrs")
+        st.assume(is_ref(d), st.get("cls_of", a_of(d)) == CLS.cid("dict"), a_of(d) >= 1000, a_of(d) < st.alloc)
+
+    def modifies(self, c):
+        return []
+
+    def declared(self, c):
+        st, s = c.pre, c.self
+        A = a_of(fld(st, s, "attrs"))
+        k = kn(STR.val("invalidated_by"))
+        has = z3.Select(st.get("dhas", A), k)
+        v = z3.Select(st.get("dval", A), k)
+        return z3.And(has, c.eng.truthy(st, v)), v
+
+    def post(self, c):
+        decl, v = self.declared(c)
+        r = c.eng.to_val(c.post, c.res)
+        R = a_of(r)
+        return [("name", z3.Implies(z3.And(decl, is_str(v)), z3.And(
+                    is_ref(r), c.post.get("cls_of", R) == CLS.cid("list"), c.post.get("llen", R) == 1,
+                    z3.Select(c.post.get("lelem", R), 0) == v))),
+                ("collection", z3.Implies(z3.And(decl, z3.Not(is_str(v))), r == v)),
+                ("none", z3.Implies(z3.Not(decl), z3.Not(c.eng.truthy(c.post, r))))]
